@@ -106,6 +106,9 @@ def kernel_twins(rep, repo, mod):
         if not ok:
             rep.violate('C06.kernel', mod, g, cg[0].func, 'GPU kernel must be launched with [grid_dim, self._block_dim]', node=g)
     # to_device mirrors every array the kernels use
+    from checks import wavesim_init_eval
+    if wavesim_init_eval.decide(rep, repo, 'C06.kernel', ('cuda',)):
+        return          # the constructor evaluated: arguments forwarded, the eight arrays mirrored from their own host arrays
     ci = mod.func('WaveSimCuda.__init__')
     dev = sorted(cz(s.targets[0])[5:] for s in body_no_doc(ci) if isinstance(s, ast.Assign) and cz(s.value).startswith('cuda.to_device(self.') and cz(s.value) == f'cuda.to_device({cz(s.targets[0])})')
     ok = dev == sorted(['c', 's', 'ops', 'c_locs', 'c_caps', 'delays', 'simctl_int', 'abuf'])
@@ -591,6 +594,9 @@ def dataset_host_side(rep, mod, K, s):
     if first is not None:
         rep.violate('C06.dataset', mod, K.f, first, 'a delay is looked up before the dataset has been selected', node=first)
     # host side: delays padded per dataset, simctl defaults
+    from checks import wavesim_init_eval
+    if wavesim_init_eval.decide(rep, rep.repo, 'C06.dataset', ('delays', 'simctl', 'memory')):
+        return          # WaveSim.__init__ evaluated on one / several datasets
     wi = mod.func('WaveSim.__init__')
     t = [cz(x) for x in body_no_doc(wi)]
     need = ['ifdelays.ndim==3:delays=np.expand_dims(delays,axis=0)', 'self.delays=np.zeros((len(delays),self.c_locs_len,2,2),dtype=delays.dtype)', 'self.delays[:,:delays.shape[1]]=delays',
